@@ -227,9 +227,11 @@ def from_refs(node):
 
 
 class Tr:
-    def __init__(self, amap, I):
+    def __init__(self, amap, I, isnull_as_cmp=False):
         self.amap = amap
         self.I = I
+        # on the side of what was actually pushed into a fetch, an IS NULL conjunct is a filter like any other
+        self.isnull_as_cmp = isnull_as_cmp
 
     def col(self, ident):
         from mindsdb_sql.parser.ast import Identifier
@@ -285,6 +287,9 @@ class Tr:
                 ca, cb = self.col(a), self.col(b)
                 if ca and cb:
                     return ('cols', node.op == '=', ca, cb)
+                return ('other',)
+            if node.op == 'is' and not self.isnull_as_cmp and (type(a).__name__ == 'NullConstant' or type(b).__name__ == 'NullConstant'):
+                # IS NULL is never used as a filter on its own (repository fix 11250a0): an opaque conjunct
                 return ('other',)
             if isinstance(a, Identifier) and isinstance(b, (Constant, Parameter)):
                 c = self.col(a)
@@ -411,7 +416,7 @@ def observe(sql, cat_kw, I, require_model=True):
                 for a in c2.args:
                     if isinstance(a, Identifier):
                         a.parts = [f'ref{ref}', a.parts[-1]]
-                t2 = Tr({(f'ref{ref}',): ref}, I)
+                t2 = Tr({(f'ref{ref}',): ref}, I, isnull_as_cmp=True)
                 kk = t2.classify(c2)
                 if kk[0] != 'cmp':
                     raise Unsupported(f'pushed filter of unexpected shape: {c.to_string()}')
